@@ -21,6 +21,18 @@ func expectedMapping(where string, n *yaml.Node) error {
 	)
 }
 
+// decodeMetadataBool decodes a boolean field of reusable workflow metadata. The value may be given
+// by ${{ }}. Such value is not known statically so it is handled as false. This must be the same
+// as how WriteWorkflowCallEvent builds the metadata from the syntax tree.
+func decodeMetadataBool(n *yaml.Node) (bool, error) {
+	if n.Kind == 0 || n.Kind == yaml.ScalarNode && n.Tag == "!!str" && ContainsExpression(n.Value) {
+		return false, nil
+	}
+	var b bool
+	err := n.Decode(&b)
+	return b, err
+}
+
 // ReusableWorkflowMetadataInput is an input metadata for validating local reusable workflow file.
 type ReusableWorkflowMetadataInput struct {
 	// Name is a name of the input defined in the reusable workflow.
@@ -34,7 +46,7 @@ type ReusableWorkflowMetadataInput struct {
 // UnmarshalYAML implements yaml.Unmarshaler.
 func (input *ReusableWorkflowMetadataInput) UnmarshalYAML(n *yaml.Node) error {
 	type metadata struct {
-		Required bool      `yaml:"required"`
+		Required yaml.Node `yaml:"required"`
 		Default  yaml.Node `yaml:"default"`
 		Type     string    `yaml:"type"`
 	}
@@ -43,12 +55,16 @@ func (input *ReusableWorkflowMetadataInput) UnmarshalYAML(n *yaml.Node) error {
 	if err := n.Decode(&md); err != nil {
 		return err
 	}
+	required, err := decodeMetadataBool(&md.Required)
+	if err != nil {
+		return err
+	}
 
 	// Note: The input has a default value when "default" key exists even if the value is null
 	// ("default: null" or "default:"). This must be the same as how WriteWorkflowCallEvent builds
 	// the metadata from the syntax tree. Otherwise the result of checking a workflow call depends
 	// on which of them registered the metadata to the cache first.
-	input.Required = md.Required && md.Default.Kind == 0
+	input.Required = required && md.Default.Kind == 0
 	switch md.Type {
 	case "boolean":
 		input.Type = BoolType{}
@@ -116,11 +132,17 @@ func (secrets *ReusableWorkflowMetadataSecrets) UnmarshalYAML(n *yaml.Node) erro
 	for i := 0; i < len(n.Content); i += 2 {
 		k, v := n.Content[i], n.Content[i+1]
 
-		var s ReusableWorkflowMetadataSecret
-		if err := v.Decode(&s); err != nil {
+		var sec struct {
+			Required yaml.Node `yaml:"required"`
+		}
+		if err := v.Decode(&sec); err != nil {
 			return err
 		}
-		s.Name = k.Value
+		required, err := decodeMetadataBool(&sec.Required)
+		if err != nil {
+			return err
+		}
+		s := ReusableWorkflowMetadataSecret{Name: k.Value, Required: required}
 
 		md[strings.ToLower(k.Value)] = &s
 	}
